@@ -178,17 +178,25 @@ def write_catalog(root, spec):
         return {'path': d, 'cleandir': None}
     zdir = os.path.join(root, SIM, 'halos', 'z0.000')
     os.makedirs(os.path.join(zdir, 'halo_info'), exist_ok=True)
-    data = _arrays(np, raw_schema(), spec['halo'])
-    asdf.AsdfFile({'data': data, 'header': header(box, zkms)}).write_to(
-        os.path.join(zdir, 'halo_info', 'halo_info_000.asdf'))
+    # 'splits': the rows spread over several superslab files of the given sizes (per-row results cannot depend on that)
+    splits = spec.get('splits') or [spec['nrows']]
+    assert sum(splits) == spec['nrows'] and not (spec.get('particles') and len(splits) > 1)
     cleandir = None
     if spec.get('cleaned') is not None:
         cleandir = os.path.join(root, 'cleaning')
-        cd = os.path.join(cleandir, SIM, 'z0.000', 'cleaned_halo_info')
-        os.makedirs(cd, exist_ok=True)
-        cdata = _arrays(np, cleaned_schema(), spec['cleaned'])
-        asdf.AsdfFile({'data': cdata, 'header': header(box, zkms, {'TimeSliceRedshiftsPrev': [0.1 * (k + 1) for k in range(NPREV)]})}
-                      ).write_to(os.path.join(cd, 'cleaned_halo_info_000.asdf'))
+        os.makedirs(os.path.join(cleandir, SIM, 'z0.000', 'cleaned_halo_info'), exist_ok=True)
+    lo = 0
+    for k, n in enumerate(splits):
+        part = slice_rows(spec, list(range(lo, lo + n)))
+        lo += n
+        data = _arrays(np, raw_schema(), part['halo'])
+        asdf.AsdfFile({'data': data, 'header': header(box, zkms)}).write_to(
+            os.path.join(zdir, 'halo_info', f'halo_info_{k:03d}.asdf'))
+        if cleandir:
+            cd = os.path.join(cleandir, SIM, 'z0.000', 'cleaned_halo_info')
+            cdata = _arrays(np, cleaned_schema(), part['cleaned'])
+            asdf.AsdfFile({'data': cdata, 'header': header(box, zkms, {'TimeSliceRedshiftsPrev': [0.1 * (k + 1) for k in range(NPREV)]})}
+                          ).write_to(os.path.join(cd, f'cleaned_halo_info_{k:03d}.asdf'))
     if spec.get('particles'):
         ntot = sum(r[0] for r in spec['halo']['npoutA'])
         for AB in 'AB':
